@@ -98,8 +98,12 @@ static uint8_t loop_stop(m_ctx_t *c) {
     /* Publish loop stopped system message */
     tell_system_pubsub_msg(NULL, c, NULL, M_PS_CTX_STOPPED);
     
-    /* Flush pubsub msg to avoid memleaks */
-    m_iterate(c->modules, flush_pubsub_msgs, NULL);
+    /*
+     * Flush pubsub msg to avoid memleaks.
+     * A callback run by the flush may register or deregister other modules: the iteration stops there (-EACCES);
+     * start over, as modules already flushed have nothing left.
+     */
+    while (m_iterate(c->modules, flush_pubsub_msgs, NULL) == -EACCES);
     
     /* Stop FS */
     fs_stop(c);
